@@ -260,6 +260,7 @@ def run_case(registry, case, want_data=True):
             out['data'] = canon_data(m)
         except Exception as e:
             out['data'] = '!' + type(e).__name__
+    out['dump'] = dump(m)
     vals = []
     sents = [to_sent(j) for j in case['sents']]
     for s in sents:
@@ -277,6 +278,19 @@ def run_case(registry, case, want_data=True):
         except Exception as e:
             out['data_after'] = '!' + type(e).__name__
     return out
+
+
+def dump(m):
+    frames = {}
+    for w, fr in list(m.frames.items()):
+        frames[str(w)] = dict(
+            atomics=[[sent_json(s), x.name] for s, x in fr.atomics.items()],
+            opaques=[[sent_json(s), x.name] for s, x in fr.opaques.items()],
+            preds=[[pred_json(p), [param_json(q) for q in params], x.name]
+                   for p, interp in fr.predicates.items() for params, x in interp.items()],
+            pkeys=[pred_json(p) for p in fr.predicates])
+    return dict(frames=frames, R={str(w): list(ws) for w, ws in m.R.items()},
+                consts=[c.subscript * 4 + c.index for c in m.constants])
 
 
 def run():
